@@ -78,6 +78,37 @@ from . import compat
 from .compat import BoundReached, HangAbort, KnownRegion, StepBudget
 from .codec import enc
 
+# ---- bitwise OR of disjoint bit fields on symbolic integers -----------------------------------------
+# CrossHair realises both operands of `|`.  The engine's decoders assemble fields with
+# `low | (high << k)`: when 0 <= low < 2**k and the other operand is a non-negative multiple of 2**k the
+# two operands share no bit and a | b == a + b exactly, which stays in linear integer arithmetic.  Any
+# other shape keeps CrossHair's (realising) behaviour.
+import operator as _op
+from numbers import Integral as _Integral
+
+
+def _or_of_disjoint_fields(op, a, b):
+    import z3
+    with NoTracing():
+        SI = _bl.SymbolicInt
+        if isinstance(a, _bl.SymbolicBool) or isinstance(b, _bl.SymbolicBool) \
+                or not (isinstance(a, SI) or isinstance(b, SI)):
+            return op(_core.realize(a), _core.realize(b))
+        space = _ss.context_statespace()
+        av = a.var if isinstance(a, SI) else z3.IntVal(int(a))
+        bv = b.var if isinstance(b, SI) else z3.IntVal(int(b))
+        for k in (8, 16):
+            m = 2 ** k
+            for lo, hi in ((av, bv), (bv, av)):
+                if space.smt_fork(z3.And(lo >= 0, lo < m, hi >= 0, hi % m == 0), probability_true=0.9):
+                    return SI(lo + hi)
+        return op(_core.realize(a), _core.realize(b))
+
+
+_bl._BIN_OPS_SEARCH_ORDER.append((_op.or_, _Integral, _Integral, _or_of_disjoint_fields))
+_bl._BIN_OPS.clear()
+
+
 # ---- math.fmod: contract stub -------------------------------------------------------------------
 # fmod has no SMT counterpart (fp.rem is the IEEE remainder, not the truncating one) and CrossHair
 # realises its arguments.  Under symbolic execution it is replaced by its contract: for finite a and
